@@ -408,6 +408,10 @@ def observe_problem(fun, x0, kw, y):
   for c in cons:
     out += [1.0 if c['type'] == 'eq' else 0.0, scalar(c['fun'](y.copy()))]
   out += [1.0 if kw.get('callback') is not None else 0.0]
+  opts = kw.get('options') or {}
+  if opts.get('disp', False):
+    raise ValueError('options[disp] is %r' % (opts.get('disp'),))
+  out += [float(opts.get('ftol', -1)), float(opts.get('maxiter', -1))]      # -1: not passed (SciPy's default)
   return out
 
 
@@ -427,6 +431,27 @@ def licq(dev, N, poly, x, tol=1e-7):
     return True, 0
   M = n_.array(rows)
   return bool(n_.linalg.matrix_rank(M, tol=1e-9) == len(rows)), len(rows)
+
+
+def parallel_active_pair(dev, N, poly, x, tol=1e-7):
+  """do two of the constraint / bound gradients active at x point the same way (a structurally duplicated limit: an
+  equality next to a coincident inequality or next to the bound of a zero-width slot)?"""
+  n_ = np()
+  A_ub, b_ub, A_eq, b_eq, _ = poly
+  rows = [n_.array(r, dtype=float) for r in A_eq]
+  for r, b in zip(A_ub, b_ub):
+    if abs(n_.dot(r, x) - b) <= tol:
+      rows.append(n_.array(r, dtype=float))
+  bd = n_.array(dev.bounds, dtype=float)
+  for k in range(N):
+    if abs(x[k] - bd[k, 0]) <= tol or abs(x[k] - bd[k, 1]) <= tol:
+      e = n_.zeros(N); e[k] = 1; rows.append(e)
+  rows = [r/n_.linalg.norm(r) for r in rows if n_.linalg.norm(r) > 0]
+  for i in range(len(rows)):
+    for j in range(i + 1, len(rows)):
+      if abs(abs(float(rows[i].dot(rows[j]))) - 1.0) <= 1e-9:
+        return True
+  return False
 
 
 def better_point(f, g, dev, N, x, starts, tol=1e-8):
